@@ -266,7 +266,7 @@ class C20(World):
             "weights": swarm_weights(rng, FAULTS, keep_p=0.5, always=("truncate",)),
             "n_attempts": rng.choice([2, 3, 4, 6, 8]),
             "stack": rng.random() < 0.25,  # faults accumulate on the already corrupted bytes (multi-fault sequences)
-            "enumerate_truncation": rng.random() < 0.02,
+            "enumerate_truncation": rng.random() < (0.02 if self.TIER == "quick" else 0.2),
         }
 
     def _gen_fault(self, rng, kind, fmt):
